@@ -144,6 +144,10 @@ def gen_jobs(rng, tier: str) -> list:
     for i, (name, src) in enumerate(progen.ENV_PROGRAMS):
         for k, form in enumerate(['str', 'path', c05.FORMS[2 + i % 2]]):
             mk(lambda p, r, s=src: s, name, form, pols[(i + 2 * k) % len(pols)], True, (i + k) % 4 == 3)
+    # programs ending with an uncaught SyntaxError-family exception raised at run time by the user's code
+    for i, (name, src) in enumerate(progen.RT_SYNTAX_PROGRAMS):
+        for k, form in enumerate(['str', 'path', c05.FORMS[2 + i % 2]]):
+            mk(lambda p, r, s=src: s, name, form, pols[(i + k) % len(pols)], (i + k) % 5 != 4, (i + k) % 4 == 1)
     # corpus/C04/*.json: known findings, run on every run
     d = C.CORPUS / 'C04'
     for p in sorted(d.glob('*.json')) if d.exists() else []:
@@ -221,8 +225,9 @@ def oracle(job: dict, res: dict, ref: dict) -> tuple[list, tuple]:
     elif etype:
         want = [[nf(f), l, n] for f, l, n, _ in ref['tb']]
         got = [[nf(f), l, n] for f, l, n in tb]
-        if emsg != (ref.get('exc_str') or '') and etype != 'SyntaxError' and etype != 'KeyError':
-            bad.append(('exception-message-differs', f'{etype}: {emsg!r} under nextline, {ref.get("exc_str")!r} directly'))
+        ref_msg = exc_head(ref.get('fmt_exc') or '')[1]          # the last line of the formatted exception, both sides
+        if emsg != ref_msg:
+            bad.append(('exception-message-differs', f'{etype}: {emsg!r} under nextline, {ref_msg!r} directly'))
         if any(NEXTLINE_FILE.search(f) for f, _, _ in tb):
             bad.append(('traceback:nextline-frames', f'the traceback contains Nextline frames: {[f for f, _, _ in tb if NEXTLINE_FILE.search(f)]}'))
         elif got and got[0][0] != '<script>':
@@ -254,11 +259,13 @@ def oracle(job: dict, res: dict, ref: dict) -> tuple[list, tuple]:
     # ---- model case
     case = None
     if etype and etype == ref.get('exc_type'):
-        if etype == 'SyntaxError' and not ref['tb']:
-            case = (1, [1, 4, 4, 2, 2], obs_cls)
+        family = etype in ('SyntaxError', 'IndentationError', 'TabError')         # isinstance(exc, SyntaxError)
+        if family and not ref['tb']:
+            case = (1, [1, 4, 4, 2, 2], obs_cls)          # the statement itself does not compile: raised by compile() in compose.py
         else:
+            # raised at run time from the user's code, whatever its class: runner frame + the traceback of the direct execution
             user = ref['script_module']
-            case = (0, [1] + [0 if m == user else 5 for _, _, _, m in ref['tb']], obs_cls)
+            case = (1 if family else 0, [1] + [0 if m == user else 5 for _, _, _, m in ref['tb']], obs_cls)
     return bad, case
 
 
@@ -313,6 +320,7 @@ def run(ctx, jobs: list, corr: Corr, seen: set) -> None:
         hist['with_return_value'] += int(job['form'] == 'callable' and not ref.get('exc_type'))
         hist['threads_or_tasks'] += int(len(ref['streams']) > 1)
         hist['syntax_errors'] += int(ref.get('exc_type') == 'SyntaxError')
+        hist['runtime_syntax_error_family'] = hist.get('runtime_syntax_error_family', 0) + int(ref.get('exc_type') in ('SyntaxError', 'IndentationError', 'TabError') and bool(ref.get('tb')))
         hist['interrupts'] += int(bool(job.get('interrupt')))
         hist['environment_sensitive'] = hist.get('environment_sensitive', 0) + int(job['name'].startswith('env-'))
         hist['interrupt_signals_sent'] = hist.get('interrupt_signals_sent', 0) + ((res.get('policy_summary') or {}).get('signals_sent') or 0)
